@@ -66,7 +66,8 @@ FLOORS = {
             "repetitions=3": 30, "exhausted": 100},
     "C27": {"iterate-loop": 200, "multi-update": 200, "with-request": 200, "gaps-in-numbering": 100, "fresh>maxvar": 100,
             "repeated-literal": 200, "support=0": 100, "wrapper:pycmsgen": 500, "wrapper:pyunigen": 500,
-            "real-sampler:CMSGen:samples": 50, "real-sampler:UniGen:samples": 50},
+            "real-sampler:CMSGen:samples": 50, "real-sampler:UniGen:samples": 50, "block:iterate-files=3": 50,
+            "block:CMSGen-files=1": 50, "block:UniGen-files=1": 50, "block:support>10": 50},
     "C28": {"blocking-updates": 200, "rel-EQ": 100, "rel-GT": 100, "rel-LT": 100, "k>n": 100, "k=n": 100, "k=0": 100,
             "requests=3": 100, "no-clauses": 50},
     "C29": {"smgen:ok": 50, "smgen:refused": 20, "history-length=2": 20, "history-length=3": 10, "has-transition": 30,
